@@ -13,6 +13,11 @@
 //! from the encoded bytes, and `Font::shape` + `GlyphLayout` on a wrapped sfnt. kern tables: byte-level
 //! reference reader vs `gpos::apply_fallback` / `Font::shape`.
 //!
+//! Family 'markadjust' (see `markadjust_programs`): a mark that is attached by lookup type 4, 5 or 6 and also adjusted
+//! by a value record (SinglePos, PairPos, nested SinglePos of a contextual rule), in both lookup orders, inside one
+//! feature and across two features. Where the specification does not decide (a placement made before the attachment)
+//! both legitimate outcomes are accepted, see `otmodel::gposenc::Interp`.
+//!
 //! A mismatch is attributed to a precise key only if the observed output equals the reference run with
 //! the corresponding deviation switch(es); everything else is "C05:mismatch:<kind>".
 
@@ -47,6 +52,9 @@ const T_DIST: u32 = tag(b"dist");
 const T_CURS: u32 = tag(b"curs");
 const T_LIGA: u32 = tag(b"liga");
 const T_LATN: u32 = tag(b"latn");
+/// a feature that is not one of the default features of the script: `Font::shape` applies it (as a custom feature)
+/// after dist / kern / mark / mkmk
+const T_LATE: u32 = tag(b"ss01");
 
 const MFS0: u16 = USE_MARK_FILTERING_SET; // with mark_set 0
 const FLAGS8: [(u16, u16); 8] = [
@@ -113,6 +121,7 @@ enum Kind {
     MarkMark,
     Context,
     Combo,
+    MarkAdjust,
     Overflow,
 }
 
@@ -127,6 +136,7 @@ impl Kind {
             Kind::MarkMark => "markmark",
             Kind::Context => "context",
             Kind::Combo => "combo",
+            Kind::MarkAdjust => "markadjust",
             Kind::Overflow => "overflow",
         }
     }
@@ -136,7 +146,7 @@ impl Kind {
     /// longer candidates, so a return of that behaviour is reported as a plain mismatch.
     fn cands(&self) -> &'static [usize] {
         match self {
-            Kind::Single | Kind::Pair | Kind::Context | Kind::Combo | Kind::Overflow => &[],
+            Kind::Single | Kind::Pair | Kind::Context | Kind::Combo | Kind::MarkAdjust | Kind::Overflow => &[],
             // 11 = anchor format 3 variation deltas ignored: the only GPOS deviation still recorded as a known finding
             Kind::Cursive | Kind::MarkBase | Kind::MarkLig | Kind::MarkMark => &[11],
         }
@@ -170,7 +180,7 @@ fn prog(name: String, kind: Kind, feat: u32, lookups: Vec<Lookup>) -> Prog {
         feats: vec![feat],
         tuples: false,
         comps: false,
-        zero_marks: matches!(kind, Kind::MarkBase | Kind::MarkLig | Kind::MarkMark | Kind::Combo),
+        zero_marks: matches!(kind, Kind::MarkBase | Kind::MarkLig | Kind::MarkMark | Kind::Combo | Kind::MarkAdjust),
         maxlen: (4, 5),
     }
 }
@@ -484,6 +494,7 @@ fn catalogue(thorough: bool) -> Vec<Prog> {
 
     context_programs(&mut v);
     combo_programs(&mut v);
+    markadjust_programs(&mut v);
     let _ = thorough;
     v
 }
@@ -634,6 +645,145 @@ fn combo_programs(v: &mut Vec<Prog>) {
             s(0x4),
         ));
         v.push(two(&format!("overflow markbase then placement {} on the mark", big), Kind::Overflow, T_MARK, mb(), T_MARK, s(0x3)));
+    }
+}
+
+/// value formats of the adjusting record: xPlacement only, yPlacement only, both placements, xAdvance only, mixed
+const VF_ADJ: [u16; 5] = [0x1, 0x2, 0x3, 0x4, 0x7];
+
+/// An attached mark that is also adjusted by a value record.
+///
+/// (MarkBasePos | MarkLigPos | MarkMarkPos) x (SinglePos 1/2 on the mark | PairPos 1/2 whose first / second glyph is the
+/// mark | Context / ChainContext rule with a nested SinglePos on the mark) x VF_ADJ x both lookup orders x (two
+/// lookups of one feature | two features). The lookup that comes first in the LookupList is always the one that is
+/// applied first (the lookups of two features are listed in the order in which the features are applied), so that
+/// "lookup-list order" and "feature by feature" give the same sequence.
+fn markadjust_programs(v: &mut Vec<Prog>) {
+    let bases = vec![A, B, L];
+    let marks = vec![M1, M2];
+    // (name, feature, lookup, enumerate ligature components)
+    let attaches: Vec<(&str, u32, Lookup, bool)> = vec![
+        ("markbase", T_MARK, lk((0, 0), vec![markbase(marks.clone(), CLASS_CFG[1], 0, 0)]), false),
+        ("marklig", T_MARK, lk((0, 0), vec![marklig(CLASS_CFG[1], 0, 1)]), true),
+        ("markmark", T_MKMK, lk((0, 0), vec![markmark(marks.clone(), marks.clone(), CLASS_CFG[2], 0, 2)]), false),
+    ];
+    // adjusting lookup (and the lookup it nests, which is placed at index 2 of the LookupList)
+    let nested = |vf: u16| lk((0, 0), vec![Subtable::Single1 { cov: vec![M1, M2], fmt: vf, value: val(60) }]);
+    let adjusters = |vf: u16| -> Vec<(String, Lookup, Option<Lookup>)> {
+        let mut a: Vec<(String, Lookup, Option<Lookup>)> = Vec::new();
+        for f in [(0u16, 0u16), (MFS0, 0), (0x0200, 0)] {
+            a.push((format!("single1(marks) {}", flag_name(f)), lk(f, vec![Subtable::Single1 { cov: marks.clone(), fmt: vf, value: val(50) }]), None));
+        }
+        a.push(("single2(a,marks)".into(), lk((0, 0), vec![Subtable::Single2 { cov: vec![A, M1, M2], fmt: vf, values: (51..54).map(val).collect() }]), None));
+        // second glyph of the pair = the mark (value record 2)
+        let second = |k: usize| vec![(M1, val(k), val(k + 1)), (M2, val(k + 2), val(k + 3))];
+        a.push((
+            "pair1(base,mark) value2".into(),
+            lk((0, 0), vec![Subtable::Pair1 { cov: bases.clone(), fmt1: 0x4, fmt2: vf, sets: vec![second(54), second(58), second(62)] }]),
+            None,
+        ));
+        // first glyph of the pair = the mark (value record 1); the second glyph is not consumed
+        a.push((
+            "pair1(mark,any) value1".into(),
+            lk(
+                (0, 0),
+                vec![Subtable::Pair1 {
+                    cov: marks.clone(),
+                    fmt1: vf,
+                    fmt2: 0,
+                    sets: vec![
+                        vec![(A, val(66), val(0)), (B, val(67), val(0)), (M1, val(68), val(0)), (M2, val(69), val(0))],
+                        vec![(A, val(70), val(0)), (L, val(71), val(0)), (M1, val(72), val(0))],
+                    ],
+                }],
+            ),
+            None,
+        ));
+        // class pairs: the mark is first glyph of one pair or second glyph of another
+        a.push((
+            "pair2(classes) value1+value2".into(),
+            lk(
+                (0, 0),
+                vec![Subtable::Pair2 {
+                    cov: vec![A, L, M1, M2],
+                    fmt1: vf,
+                    fmt2: vf,
+                    class1: vec![(A, 1), (M1, 2), (M2, 2)],
+                    class2: vec![(M1, 1), (M2, 2)],
+                    matrix: (0..3).map(|r| (0..3).map(|c| (val(73 + 2 * (r * 3 + c)), val(74 + 2 * (r * 3 + c)))).collect()).collect(),
+                }],
+            ),
+            None,
+        ));
+        a.push((
+            "context3 [{a,b,L}{marks}]->single at 1".into(),
+            lk((0, 0), vec![Subtable::Context3 { covs: vec![bases.clone(), marks.clone()], records: vec![(1, 2)] }]),
+            Some(nested(vf)),
+        ));
+        a.push((
+            "context1 [m1 m2]->single at 0,1".into(),
+            lk((0, 0), vec![Subtable::Context1 { cov: vec![M1], sets: vec![Some(vec![Rule { input: vec![M2], records: vec![(0, 2), (1, 2)] }])] }]),
+            Some(nested(vf)),
+        ));
+        a.push((
+            "chain3 {a,b,L,m1}|{marks}| ->single at 0".into(),
+            lk((0, 0), vec![Subtable::Chain3 { back: vec![vec![A, B, L, M1]], input: vec![marks.clone()], ahead: vec![], records: vec![(0, 2)] }]),
+            Some(nested(vf)),
+        ));
+        a
+    };
+    let build = |name: String, features: Vec<(u32, Vec<u16>)>, lookups: Vec<Lookup>, comps: bool| -> Prog {
+        let mut p = prog(name, Kind::MarkAdjust, features[0].0, lookups);
+        p.feats = features.iter().map(|f| f.0).collect();
+        p.gpos.features = features;
+        p.comps = comps;
+        p
+    };
+    for (an, af, al, comps) in &attaches {
+        for vf in VF_ADJ {
+            for (jn, jl, nest) in adjusters(vf) {
+                for attach_first in [true, false] {
+                    for one_feature in [true, false] {
+                        let (mut lookups, order) = if attach_first { (vec![al.clone(), jl.clone()], "attach,adjust") } else { (vec![jl.clone(), al.clone()], "adjust,attach") };
+                        lookups.extend(nest.clone());
+                        let features = match (one_feature, attach_first) {
+                            (true, _) => vec![(*af, vec![0, 1])],
+                            (false, true) => vec![(*af, vec![0]), (T_LATE, vec![1])],
+                            (false, false) => vec![(T_DIST, vec![0]), (*af, vec![1])],
+                        };
+                        let name = format!("markadjust {} + {} vf={:#x} order={} {}", an, jn, vf, order, if one_feature { "one-feature" } else { "two-features" });
+                        v.push(build(name, features, lookups, *comps));
+                    }
+                }
+            }
+        }
+    }
+    let mb = || lk((0, 0), vec![markbase(marks.clone(), CLASS_CFG[1], 0, 0)]);
+    let mm = || lk((0, 0), vec![markmark(marks.clone(), marks.clone(), CLASS_CFG[2], 0, 2)]);
+    let s1 = |vf: u16| lk((0, 0), vec![Subtable::Single1 { cov: marks.clone(), fmt: vf, value: val(50) }]);
+    for vf in VF_ADJ {
+        // attachment and adjustment by the records of one contextual rule, in both record orders
+        for (order, records) in [("attach,adjust", vec![(1u16, 1u16), (1, 2)]), ("adjust,attach", vec![(1, 2), (1, 1)])] {
+            let ctx = lk((0, 0), vec![Subtable::Context3 { covs: vec![vec![A, B], marks.clone()], records }]);
+            v.push(build(format!("markadjust one rule: context3 [{{a,b}}{{marks}}]->markbase,single at 1 vf={:#x} order={}", vf, order), vec![(T_MARK, vec![0])], vec![ctx, mb(), s1(vf)], false));
+        }
+        // a mark is attached to its base, adjusted, and attached again to the preceding mark; and adjusted after both
+        v.push(build(format!("markadjust markbase,single,markmark vf={:#x}", vf), vec![(T_MARK, vec![0, 1]), (T_MKMK, vec![2])], vec![mb(), s1(vf), mm()], false));
+        v.push(build(format!("markadjust markbase,markmark,single vf={:#x}", vf), vec![(T_MARK, vec![0]), (T_MKMK, vec![1, 2])], vec![mb(), mm(), s1(vf)], false));
+        // adjusted before and after the attachment
+        v.push(build(format!("markadjust single,markbase,single2 vf={:#x}", vf), vec![(T_MARK, vec![0, 1, 2])], vec![s1(vf), mb(), lk((0, 0), vec![Subtable::Single2 { cov: marks.clone(), fmt: vf ^ 0x3, values: vec![val(52), val(53)] }])], false));
+    }
+    // placement carried by VariationIndex tables (x variation tuples)
+    for fmt in [0x33u16, 0x11, 0x77, 0x30] {
+        for attach_first in [true, false] {
+            let adj = lk((0, 0), vec![Subtable::Single1 { cov: marks.clone(), fmt, value: with_devs(val(50), 0) }]);
+            let (lookups, order) = if attach_first { (vec![mb(), adj], "attach,adjust") } else { (vec![adj, mb()], "adjust,attach") };
+            let mut p = build(format!("markadjust markbase + single1(marks) devices vf={:#x} order={}", fmt, order), vec![(T_MARK, vec![0, 1])], lookups, false);
+            p.gdef.store = Some(store());
+            p.tuples = true;
+            p.maxlen = (3, 4);
+            v.push(p);
+        }
     }
 }
 
@@ -827,6 +977,8 @@ struct Acc {
     states: u64,
     transitions: u64,
     nontrivial: u64,
+    /// cases whose Info values equal the reference under the second accepted reading (Interp::attach_overrides_placement)
+    alt_accepted: u64,
     kind: &'static str,
 }
 
@@ -850,6 +1002,9 @@ impl Acc {
             ctx.sample(h, || s);
         }
         ctx.evals(self.evals);
+        if self.alt_accepted > 0 {
+            ctx.bump("cases_matching_reading[mark-attachment-discards-earlier-placement]", self.alt_accepted);
+        }
         if !self.kind.is_empty() {
             ctx.bump(&format!("nontrivial_reference_cases[{}]", self.kind), self.nontrivial);
             ctx.bump(&format!("cases_compared[{}]", self.kind), self.evals);
@@ -1061,12 +1216,22 @@ impl<'a> Case<'a> {
         self.gids.iter().zip(self.comps.iter()).map(|(&gid, &lig_comp)| GlyphIn { gid, lig_comp }).collect()
     }
     fn reference(&self, feats: &[u32], sw: Sw) -> Vec<PosOut> {
+        self.reference_interp(feats, sw, Interp::default())
+    }
+    fn reference_interp(&self, feats: &[u32], sw: Sw, interp: Interp) -> Vec<PosOut> {
         let c = tuple_coords(self.tuple);
-        normalize(&apply_gpos(&self.p.gpos, &self.p.gdef, feats, c.as_ref().map(|c| &c[..]), &self.run(), sw))
+        normalize(&apply_gpos_interp(&self.p.gpos, &self.p.gdef, feats, c.as_ref().map(|c| &c[..]), &self.run(), sw, interp))
     }
     /// compare observed Info values with the reference; attribute a mismatch
     fn compare_infos(&self, acc: &mut Acc, seam: &str, feats: &[u32], want: &[PosOut], got: &[PosOut], sets: &[Vec<usize>]) {
         if got == want {
+            return;
+        }
+        // The other legitimate reading of "a mark that was moved by a value record is attached afterwards": the attachment
+        // defines the offset of the mark and the earlier placement is gone (HarfBuzz). Accepted for the run as a whole.
+        let alt = self.reference_interp(feats, Sw::default(), Interp { attach_overrides_placement: true });
+        if got == alt {
+            acc.alt_accepted += 1;
             return;
         }
         // Sums that the API cannot represent (Info.kerning and anchor coordinates are i16): the property
@@ -1086,6 +1251,9 @@ impl<'a> Case<'a> {
             let mut w = self.witness(seam);
             w["expected"] = outs_json(want);
             w["observed"] = outs_json(got);
+            if alt != want {
+                w["expected_if_attachment_discards_earlier_placement"] = outs_json(&alt);
+            }
             w["explained_by"] = json!(keys);
             w
         };
@@ -1232,7 +1400,7 @@ fn run_prog(ctx: &Ctx, p: &Prog, thorough: bool, all_strings: &[Vec<G>]) -> Acc 
     // context/combo programs; at most one non-default encoding choice. thorough: the design bounds.
     let maxlen = if thorough {
         p.maxlen.1
-    } else if matches!(p.kind, Kind::Context | Kind::Combo | Kind::Overflow) {
+    } else if matches!(p.kind, Kind::Context | Kind::Combo | Kind::MarkAdjust | Kind::Overflow) {
         p.maxlen.0
     } else {
         p.maxlen.0.min(3)
@@ -1761,7 +1929,13 @@ pub fn run(ctx: &Ctx) {
          Extension) x every glyph string over {a,b,L,m1,m2} up to the length bound (x ligature-component assignments of marks \
          after L for MarkLigPos, x 6 variation tuples for programs with VariationIndex tables) through gpos::apply_features; the \
          default encoding additionally through Font::shape and through GlyphLayout::glyph_positions in both directions (mark \
-         families also with zero-advance marks). kern: every table of the catalogue x every string through KernTable + \
+         families also with zero-advance marks). Family 'markadjust': (MarkBasePos | MarkLigPos | MarkMarkPos) x (SinglePos 1 \
+         under 3 lookup flags, SinglePos 2, PairPos 1 with the mark as second glyph, PairPos 1 with the mark as first glyph, \
+         PairPos 2, Context 3 / Context 1 / ChainContext 3 rule with a nested SinglePos on the mark) x 5 value formats \
+         (x / y / both placements, advance only, mixed) x (attach then adjust | adjust then attach) x (two lookups of one \
+         feature | two features), plus attachment and adjustment by two records of one contextual rule, re-attachment by \
+         MarkMarkPos after an adjustment, adjustment before and after the attachment, and placements carried by \
+         VariationIndex tables x 6 tuples. kern: every table of the catalogue x every string through KernTable + \
          apply_fallback, selected tables through Font::shape with/without GPOS. A case is non-trivial when the reference \
          positioner produced a non-zero adjustment or an attachment (counted per (program, string, components, tuple, direction)) \
          or the kern reference produced a non-zero kerning; outcomes are distinct (Info values, absolute origins) results.",
@@ -1772,6 +1946,8 @@ pub fn run(ctx: &Ctx) {
     ctx.assume("mark attachment (MarkBase/MarkLig): the lookup flags select the mark; the glyph attached to is the nearest preceding glyph that is not a GDEF mark (HarfBuzz); IgnoreBaseGlyphs/IgnoreLigatures are not enumerated for mark attachment lookups because the specification does not define them there");
     ctx.assume("MarkMarkPos: the preceding mark is found with the lookup flags minus the three Ignore* bits (HarfBuzz); the ligature component of a mark after L is the liga_component_pos it carries");
     ctx.assume("context positioning: nested lookups are applied at the position of the matched input glyph without testing that glyph against the nested lookup's flag; nested lookup flags are 0 or equal to the parent's");
+    ctx.assume("a mark that received x/yPlacement from a value record and is attached (MarkBasePos / MarkLigPos / MarkMarkPos) by a LATER lookup: the GPOS chapter says the attachment aligns the mark anchor with the base anchor and is silent on an earlier placement of the mark. Two outcomes are accepted, each for the run as a whole: (1) adjustments accumulate, offset = base anchor - mark anchor + earlier placement; (2) the attachment defines the offset and the earlier placement is discarded (HarfBuzz MarkArray::apply assigns o.x_offset = base_x - mark_x; this is what allsorts does: the Distance placement is replaced by MarkAnchor). A placement applied AFTER the attachment (later lookup of the feature, later feature, nested lookup of a contextual rule) adds to the offset under both readings (HarfBuzz ValueFormat::apply_value: x_offset += xPlacement), i.e. offset = base anchor + placement - mark anchor, which Info represents by moving the base anchor; xAdvance of the mark is unaffected by the attachment");
+    ctx.assume("programs of kind 'markadjust' that use two features list the lookups in the order in which the features are applied (attachment in mark/mkmk then adjustment in the non-default feature ss01, or adjustment in dist then attachment in mark/mkmk), so that applying lookups in LookupList order over all features (specification, HarfBuzz) and feature by feature (allsorts) give the same sequence");
     ctx.assume("kern 'minimum' subtables: the specification only says the table 'has minimum values'; raising the accumulated value to the minimum, not using such subtables, and lowering the accumulated value are all accepted");
     ctx.assume("a kern table is not applied when GPOS has a 'kern' feature, nor when Font::shape is called with kerning=false on a font with GPOS");
     ctx.assume("variation deltas are chosen so that every interpolated delta is an integer (no rounding rule is tested)");
@@ -1796,13 +1972,16 @@ pub fn run(ctx: &Ctx) {
     for a in kern {
         a.merge_into(ctx);
     }
+    let n_markadjust = by_kind.get("markadjust").copied().unwrap_or(0);
     ctx.set(
         "bounds",
         json!({
             "gpos_programs": progs.len(), "gpos_programs_by_kind": by_kind, "gsub_ligature_programs": nlig, "kern_tables": nkern,
             "encodings_per_program": if thorough { 7 } else { 4 }, "encoding_deviation_bound": if thorough { 2 } else { 1 }, "alphabet": ["a", "b", "L", "m1", "m2"],
-            "max_string_length": {"pair": if thorough { 4 } else { 3 }, "marklig": if thorough { 4 } else { 3 }, "context_combo": if thorough { 5 } else { 4 }, "others": if thorough { 5 } else { 3 },
+            "max_string_length": {"pair": if thorough { 4 } else { 3 }, "marklig": if thorough { 4 } else { 3 }, "context_combo": if thorough { 5 } else { 4 }, "markadjust": if thorough { 5 } else { 4 }, "markadjust_devices": if thorough { 4 } else { 3 }, "others": if thorough { 5 } else { 3 },
                                    "gsub_ligature": if thorough { 5 } else { 4 }, "kern_apply_fallback": if thorough { 3 } else { 2 }, "kern_shape": 3},
+            "markadjust": {"attachments": ["MarkBasePos", "MarkLigPos", "MarkMarkPos"], "adjusters_per_value_format": 10, "value_formats": VF_ADJ.iter().map(|f| format!("{:#x}", f)).collect::<Vec<_>>(),
+                           "orders": ["attach,adjust", "adjust,attach"], "feature_arrangements": ["one-feature", "two-features"], "programs": n_markadjust},
             "value_formats": "SinglePos 16 x 8 flags x 2 formats; PairPos 16 x 16 x 8 flags x 2 formats; 13 device formats x 4 device menus",
             "directions": ["LeftToRight", "RightToLeft"], "tuples": TUPLES.iter().map(|t| json!(t)).collect::<Vec<_>>(),
         }),
